@@ -335,8 +335,15 @@ fn gen_op(rng: &mut Rng, n_authors: usize, uniq: &mut u64, client: usize, unique
 }
 
 pub fn run(ctx: &mut Ctx) {
+    let mut n = 0u64;
     for case in ctx.cases(2_500, 200_000) {
         let mut rng = ctx.rng(case);
+        n += 1;
+        // once per shard (thorough: every 600th case): a reader that pauses for seconds
+        if n == 40 || (!ctx.is_quick() && n % 1500 == 40) {
+            stalled_reader_case(ctx, case, &mut rng);
+            continue;
+        }
         if case % 3 == 0 {
             concurrent_case(ctx, case, &mut rng);
         } else {
@@ -854,3 +861,73 @@ fn linearize(recs: &[Rec], init: DocSpec, uni: &Universe, t: u64, budget: &mut u
 
 #[allow(dead_code)]
 fn unused(_: BTreeMap<u8, u8>, _: NamespaceId, _: SignedEntry) {}
+
+/// A reader that pauses (added after seeded change agent-C14-10): a streamed reply is a reply like any
+/// other — it reflects every request acknowledged before it, however slowly it is taken. The caller
+/// reads one item of a `get_many` through a channel of capacity 2, takes nothing out for 5.5 s (longer
+/// than any time-out a store actor could reasonably put on a send) and reads on. The pause decides how
+/// hard the case is, never the verdict: the items read must be exactly the entries acknowledged.
+fn stalled_reader_case(ctx: &mut Ctx, case: u64, rng: &mut Rng) {
+    let uni = Universe::with(namespace(1), 2);
+    let ns = uni.ns.id();
+    let rt = act::runtime(1);
+    ctx.eval();
+    rt.block_on(async {
+        let mut store = Store::memory();
+        for a in &uni.authors {
+            store.import_author(a.clone()).unwrap();
+        }
+        let _ = store.import_namespace(Capability::Write(uni.ns.clone()));
+        let h = act::spawn(store);
+        if h.open(ns, OpenOpts::default()).await.is_err() {
+            ctx.harness_error("open failed");
+            return;
+        }
+        let n = rng.range(8, 30);
+        let mut want = std::collections::BTreeSet::new();
+        for i in 0..n {
+            let k = vec![b's', i as u8];
+            let (hash, len) = crate::gen::content(i % 4);
+            iroh_docs::verif::set_clock(uni.t0 + i as u64);
+            if h.insert_local(ns, uni.authors[i % 2].id(), k.clone().into(), hash, len).await.is_ok() {
+                want.insert(k);
+            }
+        }
+        iroh_docs::verif::set_clock(0);
+        let (tx, mut rx) = irpc::channel::mpsc::channel::<iroh_docs::api::RpcResult<SignedEntry>>(2);
+        if h.get_many(ns, iroh_docs::store::Query::all().build(), tx).await.is_err() {
+            ctx.violation(case, "get-many-refused-on-an-open-document", json!({}));
+            return;
+        }
+        let mut got = std::collections::BTreeSet::new();
+        let mut first = true;
+        let mut error = None;
+        loop {
+            match rx.recv().await {
+                Ok(Some(Ok(e))) => {
+                    got.insert(e.key().to_vec());
+                }
+                Ok(Some(Err(e))) => {
+                    error = Some(format!("{e:?}"));
+                    break;
+                }
+                Ok(None) => break,
+                Err(e) => {
+                    error = Some(format!("{e:?}"));
+                    break;
+                }
+            }
+            if first {
+                first = false;
+                tokio::time::sleep(std::time::Duration::from_millis(5500)).await;
+            }
+        }
+        ctx.count("streamed_replies_read_with_a_pause_of_seconds", 1);
+        // a reply that ends with an error is a reported failure; one that ends like a complete reply
+        // must be complete
+        if error.is_none() && got != want {
+            ctx.violation(case, "streamed-reply-ended-without-error-but-incomplete", json!({"entries_acknowledged": want.len(), "entries_in_the_reply": got.len()}));
+        }
+        let _ = h.shutdown().await;
+    });
+}
